@@ -598,3 +598,44 @@ def _schema_marker(cl, mod, cls, func):
 
 
 R.fclause("C06", "schema-marker", "custom", S + "write_snapshot", fn=_schema_marker)
+
+# ---------------------------------------------------------------- meta.edges_count follows the re-keyed edge map (write-load-write fixpoint)
+# Re-keying to "src→dst" can merge edges (same endpoints, different rel); the loader recomputes meta.edges_count from the
+# edges it finds, so the writer must store the count of the *re-keyed* map or the second write differs from the first.
+# Region: the statements of write_snapshot between the store of the new edge map and the end of the meta sync block.
+from pyvc.jsonmodel import TJSON as _TJSON  # noqa: E402
+if "Json" not in R.types.named:
+    R.types.declare("Json", _TJSON)
+R.dictrec("C06GelW", {"edges": "OrderedDict[str, C06EdgeId]", "meta": "Dict[str, Json]"})
+R.dictrec("C06GelWNoMeta", {"edges": "OrderedDict[str, C06EdgeId]"})
+def _meta_sync_block(fn):
+    """the store of the re-keyed edge map and every statement after it in the same statement list (structural anchor:
+    survives rewrites of the sync block itself)"""
+    for n in _ast.walk(fn):
+        for fld in ("body", "orelse", "finalbody"):
+            body = getattr(n, fld, None)
+            if not isinstance(body, list):
+                continue
+            for i, st in enumerate(body):
+                if (isinstance(st, _ast.Assign) and len(st.targets) == 1 and _ast.unparse(st.targets[0]) in ("gel_out['edges']", 'gel_out["edges"]')
+                        and _ast.unparse(st.value) == "new_edges"):
+                    return body[i:]
+    return []
+
+
+R.region("meta-sync", _meta_sync_block)
+_EC_JSON = ("'meta' in gel_out and 'edges_count' in gel_out['meta'] and jv_int_ok(gel_out['meta']['edges_count']) and "
+            "jv_int_val(gel_out['meta']['edges_count']) == len(new_edges)")
+_EC_PLAIN = "'meta' in gel_out and 'edges_count' in gel_out['meta'] and gel_out['meta']['edges_count'] == len(new_edges)"
+for _lbl, _ty, _ec in (("meta present", "C06GelW", _EC_JSON), ("meta absent", "C06GelWNoMeta", _EC_PLAIN)):
+    R.contract(
+        S + "write_snapshot#meta-sync", "C06", name="write_snapshot/meta-sync[%s]" % _lbl, callee=False,
+        types={"gel_out": _ty, "new_edges": "OrderedDict[str, C06EdgeId]"},
+        ensures=[
+            ("edges-count-is-size-of-rekeyed-map", _ec),
+            ("schema-tag-present", "'schema' in gel_out['meta']"),
+            ("edges-stored", "seq_eq(gel_out['edges'], new_edges)"),
+        ],
+        raises="none",
+        unreachable_ok=["pass"],     # the defensive `except Exception: pass` of the sync block: dict stores cannot raise
+    )
